@@ -48,6 +48,7 @@ class Engine(ExprMixin, CallMixin, BuiltinMixin, VerifyMixin):
         self._setup_exceptions()
         self._solver = None
         self.call_depth = 0
+        self.ghost_depth = 0
         for text in reg.axioms:
             st0 = State()
             g = self.spec_bool(text, st0)
@@ -270,7 +271,7 @@ class Engine(ExprMixin, CallMixin, BuiltinMixin, VerifyMixin):
                     if len(item) > 2 and item[2] == "before" and self.match_pattern(item[0], s):
                         nxt = []
                         for cur in starts:
-                            nxt.extend(o.st for o in self.exec_block(self.parse_stmts(item[1]), cur) if o.kind == "normal")
+                            nxt.extend(o.st for o in self.exec_ghost(item[1], cur) if o.kind == "normal")
                         starts = nxt
             outs = []
             for cur in starts:
@@ -301,10 +302,24 @@ class Engine(ExprMixin, CallMixin, BuiltinMixin, VerifyMixin):
                 nxt = []
                 for oo in outs:
                     if oo.kind == "normal":
-                        nxt.extend(self.exec_block(self.parse_stmts(ghost), oo.st))
+                        nxt.extend(self.exec_ghost(ghost, oo.st))
                     else:
                         nxt.append(oo)
                 outs = nxt
+        return outs
+
+    def exec_ghost(self, text, st):
+        """Ghost statements may use specification forms; definitional facts they introduce join the state."""
+        self.ghost_depth += 1
+        n0 = len(self.spec_defs)
+        try:
+            outs = self.exec_block(self.parse_stmts(text), st)
+        finally:
+            self.ghost_depth -= 1
+        defs = self.spec_defs[n0:]
+        del self.spec_defs[n0:]
+        for o in outs:
+            o.st.pc.extend(defs)
         return outs
 
     def parse_stmts(self, text):
@@ -405,18 +420,46 @@ class Engine(ExprMixin, CallMixin, BuiltinMixin, VerifyMixin):
             sts = nxt
         return [Outcome("normal", x) for x in sts]
 
-    def assign(self, tgt, v, st, value_node=None):
-        """Assign value v to target; returns list of states (assignment through dunder methods may raise)."""
+    def assign(self, tgt, v, st, value_node=None, inplace=False):
+        """Assign value v to target; returns list of states (assignment through dunder methods may raise).
+        inplace=True: the target object is mutated in place (aliases survive, caller-visible for parameters)."""
         if isinstance(tgt, ast.Name):
             st = st.copy()
             name = tgt.id
+            if inplace and name in st.alias:
+                al = st.alias[name]
+                if al[0] == "param" and self.contract is not None and al[1] not in self.contract.modifies:
+                    self.oblige(st, "frame", "param:" + al[1],
+                                "container parameter %s is not mutated in place (it is not in modifies)" % al[1],
+                                z3.BoolVal(False), getattr(tgt, "lineno", None))
+                st2s = self._assign_name(name, v, st, None, True)
+                for s2 in st2s:
+                    s2.alias[name] = al
+                    if al[0] != "param":
+                        tnode = ast.parse(al[1], mode="eval").body
+                        tnode.ctx = ast.Store()
+                        for x in ast.walk(tnode):
+                            x.lineno = getattr(tgt, "lineno", 0)
+                        r = self.assign(tnode, v, s2, None, inplace=True)
+                        s2.env, s2.heap, s2.glob, s2.pc = r[0].env, r[0].heap, r[0].glob, r[0].pc
+                        s2.alias[name] = al
+                return st2s
+            return self._assign_name(name, v, st, value_node, inplace)
+        return self._assign_other(tgt, v, st, value_node, inplace)
+
+    def _assign_name(self, name, v, st, value_node, inplace=False):
+        if True:
+            tgt = None
             decl = self.contract.locals.get(name) if self.contract else None
             if decl is not None:
                 v = self.adapt(v, decl)
-            if name in st.glob and name not in st.env and self.is_global_decl(name):
+            if name in st.glob and name not in st.env and (inplace or self.is_global_decl(name)):
                 st.glob[name] = self.store_form(st, self.adapt(v, st.glob[name].ty), None)
                 st.wrote("g", name)
                 return [st]
+            if isinstance(v.ty, Set) and core.is_virt(v):
+                v, ax = core.materialize(v)
+                st.assume(*ax)
             st.env[name] = v
             st.alias.pop(name, None)
             if value_node is not None and v.ty is not None and isinstance(v.ty, (List, Set, Map)):
@@ -424,7 +467,11 @@ class Engine(ExprMixin, CallMixin, BuiltinMixin, VerifyMixin):
                 if pl is not None:
                     st.alias[name] = pl
             st.wrote("v", name)
+            if not inplace:
+                st.wrote("r", name)
             return [st]
+
+    def _assign_other(self, tgt, v, st, value_node, inplace):
         if isinstance(tgt, (ast.Tuple, ast.List)):
             n = len(tgt.elts)
             items = self.unpack(v, n, st)
@@ -472,7 +519,7 @@ class Engine(ExprMixin, CallMixin, BuiltinMixin, VerifyMixin):
                         raise OutsideSubset("item store on dynamic value")
                     else:
                         raise OutsideSubset("subscript store on %r" % (c.ty,))
-                    res.extend(self.assign(tgt.value, nv, st2, None))
+                    res.extend(self.assign(tgt.value, nv, st2, None, inplace=True))
             return res
         if isinstance(tgt, ast.Starred):
             raise OutsideSubset("starred target")
@@ -663,7 +710,7 @@ class Engine(ExprMixin, CallMixin, BuiltinMixin, VerifyMixin):
         return [Outcome("normal", st)]
 
     # -- loops -----------------------------------------------------------------------------------
-    from .loops import st_For, st_While, run_loop, dry_run, havoc_written, check_invariants, _unrolled, _elem_form  # noqa: E402
+    from .loops import st_For, st_While, run_loop, dry_run, havoc_written, check_invariants, _unrolled, _elem_form, _items_alias  # noqa: E402
 
 
 def _to_load(node):
